@@ -56,6 +56,9 @@ pub struct Cfg {
     /// register the test events
     #[serde(default)]
     pub events: bool,
+    /// `TickPolicy::EveryFrame` instead of `Manual`: the server increments its tick in every frame it runs
+    #[serde(default)]
+    pub every_frame: bool,
 }
 
 impl Default for Cfg {
@@ -70,6 +73,7 @@ impl Default for Cfg {
             auth: "none".into(),
             timeout_ms: 10_000,
             events: false,
+            every_frame: false,
         }
     }
 }
@@ -112,7 +116,7 @@ pub fn build_app(cfg: &Cfg, extra: &dyn Fn(&mut App)) -> App {
         MinimalPlugins,
         RepliconPlugins
             .set(ServerPlugin {
-                tick_policy: TickPolicy::Manual,
+                tick_policy: if cfg.every_frame { TickPolicy::EveryFrame } else { TickPolicy::Manual },
                 visibility_policy: policy_of(&cfg.policy),
                 mutations_timeout: Duration::from_millis(cfg.timeout_ms),
             })
